@@ -78,7 +78,7 @@ def forge(c):
 
 def schedules(c):
     n = 40 if c.tier == "quick" else 1000
-    return gb.catalogue() + gb.simulate(c, n, ["A", "B"], 1, 12, 14, False)
+    return gb.catalogue() + gb.simulate(c, n, ["A", "B"], 1, 12, 14, False) + gb.uniform(c, n // 2, ["A", "B"], nbug=2)
 
 
 def run(c):
